@@ -656,5 +656,27 @@ def r11_escapes_reemitted(chk: Check) -> None:
         chk.undecided("C01.R11", "<discovery>", "escape arms=0", "no `pattern[pos] == backslash` arm found in patterns.py")
 
 
+def r12_node_local_cleaners(chk: Check) -> None:
+    chk.rule("C01.R12", "NODE-LOCAL(per-node helpers of a worklist traversal): remove_optional_references walks the schema with an explicit stack and applies its nested helpers to EACH node; a helper that takes the node as its parameter reads that node's keywords (`required`, `minItems`, ...) from the parameter - never from the enclosing function's `schema`, which is the ROOT: consulting the root's `required` for a nested object drops a required `$ref` property from `properties` while the node's own `required` still lists it, and the generated body no longer conforms", floor=4)
+    P = chk.project
+    outer = P.func("specs/openapi/references.py:remove_optional_references")
+    outer_params = set(params_of(outer.node))
+    n = 0
+    for fn in P.all_functions():
+        if fn.parent is not outer or isinstance(fn.node, ast.Lambda):
+            continue
+        own = set(params_of(fn.node))
+        if not own:
+            continue
+        n += 1
+        leaks = [x for x in ast.walk(fn.node) if isinstance(x, ast.Name) and isinstance(x.ctx, ast.Load) and x.id in (outer_params - own)]
+        if leaks:
+            chk.violation("C01.R12", fn, f"{fn.name}({', '.join(sorted(own))}) reads only its own node", f"`{unparse(parent(leaks[0]) or leaks[0], 60)}` reads the enclosing function's `{leaks[0].id}` (the root schema) while processing a nested node", fn.loc(leaks[0]))
+        else:
+            chk.ok("C01.R12", fn, f"{fn.name}({', '.join(sorted(own))}) reads only its own node", "", fn.loc())
+    if n < 4:
+        chk.undecided("C01.R12", "<discovery>", f"helpers={n}", "fewer nested helpers with a node parameter than confirmed by hand (8)")
+
+
 def rules(tier: str) -> list:  # type: ignore[type-arg]
-    return [r1_generator_plumbing, r2_length_keywords, r2b_width_checked, r3_property_stripping, r3b_mode_selection, r4_path_location, r5_filters_only_narrow, r6_token_kinds_agree, r7_traversal_order, rfwd_forwarding, r8_forbid_each, r9_keyword_whitelist_complete, r10_validity_filters_universal, r11_escapes_reemitted]
+    return [r1_generator_plumbing, r2_length_keywords, r2b_width_checked, r3_property_stripping, r3b_mode_selection, r4_path_location, r5_filters_only_narrow, r6_token_kinds_agree, r7_traversal_order, rfwd_forwarding, r8_forbid_each, r9_keyword_whitelist_complete, r10_validity_filters_universal, r11_escapes_reemitted, r12_node_local_cleaners]
